@@ -6,6 +6,7 @@ require (
 	github.com/google/fhir/go v0.7.4
 	github.com/shopspring/decimal v1.4.0
 	github.com/verily-src/fhirpath-go v0.0.0
+	golang.org/x/exp v0.0.0-20240416160154-fe59bbe5cc7f
 	google.golang.org/protobuf v1.34.1
 )
 
@@ -20,7 +21,6 @@ require (
 	github.com/modern-go/reflect2 v1.0.1 // indirect
 	github.com/pkg/errors v0.9.1 // indirect
 	github.com/serenize/snaker v0.0.0-20201027110005-a7ad2135616e // indirect
-	golang.org/x/exp v0.0.0-20240416160154-fe59bbe5cc7f // indirect
 )
 
 replace github.com/verily-src/fhirpath-go => /repo
